@@ -55,6 +55,9 @@ def main():
     for seed in seeds:
         out = results[seed]
         target = seed.split('-')[0]
+        if 'error' in out:
+            print('%-8s PATCH-ERROR %s' % (seed, out['error'][:200].replace('\n', ' ')))
+            continue
         fired = [p for p, r in out.items() if isinstance(r, dict) and r.get('code') == 1]
         own = out.get(target, {})
         status = 'CAUGHT' if fired else ('inconclusive(exit2)' if any(isinstance(r, dict) and r.get('code') == 2 for r in out.values()) else 'MISSED')
